@@ -1,3 +1,226 @@
-/-! # C09 — property theorems (stub: not built yet) -/
+import PymtlVerif.Proofs.Nets
+import PymtlVerif.Proofs.NetsElab
+import PymtlVerif.Proofs.NetsDfs
+import PymtlVerif.Proofs.NetsWalk
+/-!
+# C09 — structurally illegal designs are always rejected at elaboration
+
+Model: `Model/Nets.lean`, `elaborate` = the stages of `Component.elaborate()` in their order
+(operators, connection loop, two writers in a net, `_check_upblk_writes`, `_check_port_in_upblk`,
+`NoWriterError`, `_check_port_in_nets`).
+
+**Proved equivalences** (the model's procedure against an order-free reading of the design):
+* `related_iff_overlap`: ancestor-or-self either way, or overlapping sibling slices ⇔ sharing a bit;
+* `upblk_writes_iff`: the parent-chain + sibling-slice walk of `_check_upblk_writes` (repaired version)
+  raises ⇔ some signal bit is written by two different update blocks;
+* `multi_writer_iff` / `no_writer_iff`: writer resolution raises / leaves a net headless ⇔ some net has
+  two / no members driven from outside (least-fixed-point specification `Mark`/`Src` of C08);
+* `loop_iff`: the loop test ⇔ the graph of the *merged* connections has a cycle (`HasCycle`: some
+  connection joins two nodes that stay connected without it; a self connection counts);
+  `floodfill_cycle`, `floodfill_cycle_any_order`: the code's `pred`-based test, modelled as the stack
+  machine it is (`ffRun`/`ffRoots`), stops within its fuel and fires exactly on these graphs, for every
+  order in which the adjacency sets and the signal set are iterated;
+* `verdict_iff`, `verdict_class`: the model rejects ⇔ one of the defects holds, and the class it
+  reports belongs to the first stage that has a defect;
+* `order_invariant_perm`, `order_invariant_flip`: the whole outcome is unchanged by permuting the
+  connect statements or swapping their sides.
+
+* `port_walk_spec`: the walk of `_check_port_in_nets` from the writer of a resolved net checks, for
+  every other member `v`, exactly one connection `(u, v)`, and `u` is on the writer's side of it.
+
+**Modelled decision tables** (the table is the code's; the theorem only restates it
+declaratively): `op_table` (`=`/`@=`/`<<=`, top-level LHS of `<<=`), `port_upblk_table`
+(Types 1–4), `port_net_table` (Types 5–9 and the loop-back rule).
+
+Quirk kept from the code: connecting the same pair twice (either orientation) is merged by the
+adjacency *sets*, so it is not a loop (`dup_is_no_loop`).
+-/
 namespace PV.C09
+open PV.Nets
+
+/-- the code's relation (ancestor or self either way, or overlapping sibling slices) is "the two
+objects share a bit" -/
+theorem related_iff_overlap (L : Leaves) (a b : Obj) (ha : WfObj L a) (hb : WfObj L b) :
+    related a b = true ↔ ∃ bit, ValidBit L bit ∧ covers a bit ∧ covers b bit :=
+  PV.Nets.related_iff_overlap L a b ha hb
+
+/-- `Connectable._overlap` on non-empty slices is "the ranges intersect" -/
+theorem overlap_spec (x y : Nat × Nat) (hx : x.1 < x.2) (hy : y.1 < y.2) :
+    overlap x y = true ↔ ∃ i, (x.1 ≤ i ∧ i < x.2) ∧ (y.1 ≤ i ∧ i < y.2) :=
+  PV.Nets.overlap_spec x y hx hy
+
+/-- `_check_upblk_writes` raises `MultiWriterError` iff some signal bit is written by two different
+update blocks (in particular one block writing overlapping objects is accepted) -/
+theorem upblk_writes_iff (D : Design) (L : Leaves) (hwf : D.WF) (hL : ∀ w ∈ D.writes, WfObj L (D.obj w.2)) :
+    upblkErrs D ≠ [] ↔ ∃ bit b1 b2, b1 ≠ b2 ∧ ValidBit L bit ∧ BlkDrives D b1 bit ∧ BlkDrives D b2 bit :=
+  upblk_iff_bits D L hwf hL
+
+theorem upblk_writes_iff_rel (D : Design) (hwf : D.WF) : upblkErrs D ≠ [] ↔ BlockConflict D :=
+  upblk_iff D hwf
+
+/-- writer resolution raises (always `MultiWriterError`) iff some net has two different members
+driven from outside the net -/
+theorem multi_writer_iff (D : Design) (hwf : D.WF) :
+    ((∃ e, resolve D = .error e) ↔ Bad D) ∧ ∀ e, resolve D = .error e → e = .multiWriter :=
+  ⟨resolve_error_iff D (D.rel_symm hwf.slices), fun e he => ((resolve_spec (D.rel_symm hwf.slices)).2 e he).1⟩
+
+/-- a net is left without writer (`NoWriterError`) iff none of its members is driven from outside -/
+theorem no_writer_iff (D : Design) (hwf : D.WF) (st : RState) (h : resolve D = .ok st) :
+    st.headless ≠ [] ↔ NoWriter D :=
+  resolve_headless_iff D (D.rel_symm hwf.slices) h
+
+/-- the loop test fires iff the merged connection graph has a cycle -/
+theorem loop_iff (E : List Edge) : hasLoop E = true ↔ HasCycle (simple E) := cyc_iff (simple E)
+
+/-- the `pred`-based flood fill of `_floodfill_nets` (stack machine `ffLoop`: roots and neighbours
+in increasing order) fires iff there is a loop, and never runs out of fuel -/
+theorem floodfill_cycle (E : List Edge) : ffLoop E = some (hasLoop E) := ffLoop_eq E
+
+/-- … and so it does for any order in which the adjacency sets (`adjf`) and the signal set (`rs`)
+are iterated -/
+theorem floodfill_cycle_any_order (E : List Edge) (adjf : Nat → List Nat) (rs : List Nat) (fuel : Nat)
+    (hadj : ∀ u v, v ∈ adjf u ↔ Step (simple E) u v) (hnd : ∀ u, (adjf u).Nodup)
+    (hrs : ∀ r, r ∈ rs ↔ r ∈ nodesOf (simple E)) (hfuel : (nodesOf (simple E)).length < fuel) :
+    ffRoots adjf fuel rs [] = some (hasLoop E) :=
+  ffRoots_eq_any_order E adjf rs fuel hadj hnd hrs hfuel
+
+/-- `HasCycle` does not depend on the order of the edge list -/
+theorem hasCycle_order_free (E E' : List Edge) (hp : E.Perm E') : HasCycle E ↔ HasCycle E' := hasCycle_perm hp
+
+/-- the loop verdict is a function of the undirected edge set -/
+theorem loop_edge_set (E E' : List Edge) (h : ∀ a b, Step E a b ↔ Step E' a b) : hasLoop E = hasLoop E' :=
+  hasLoop_congr h
+
+/-- a self connection is a loop -/
+theorem self_loop (E : List Edge) (a : Nat) (h : (a, a) ∈ E) : hasLoop E = true := by
+  rw [loop_iff]
+  refine ⟨(a, a), (mem_simple E _).mpr ⟨(a, a), h, by simp [normEdge]⟩, Reach.refl a⟩
+
+/-- the quirk: repeating a connection (in either orientation) never creates a loop -/
+theorem dup_is_no_loop (E : List Edge) (a b : Nat) (h : Step E a b) : hasLoop ((a, b) :: E) = hasLoop E := by
+  apply hasLoop_congr
+  intro x y
+  unfold Step at h ⊢
+  simp only [List.mem_cons, Prod.mk.injEq]
+  constructor
+  · rintro ((⟨rfl, rfl⟩ | h') | (⟨rfl, rfl⟩ | h'))
+    · exact h
+    · exact Or.inl h'
+    · exact h.symm
+    · exact Or.inr h'
+  · rintro (h' | h')
+    · exact Or.inl (Or.inr h')
+    · exact Or.inr (Or.inr h')
+
+/-- the model rejects a design iff it has a structural defect -/
+theorem verdict_iff (D : Design) (hwf : D.WF) : (elaborate D).verdict.isSome = true ↔ Defect D :=
+  PV.Nets.verdict_iff D hwf
+
+/-- … and the error class is the one of the first stage that has a defect -/
+theorem verdict_class (D : Design) (hwf : D.WF) (e : Err) (h : (elaborate D).verdict = some e) :
+    (OpDefect D ∧ e.isOp = true) ∨
+    (HasCycle (simple D.edges) ∧ e = .invalidConnection) ∨
+    ((Bad D ∨ BlockConflict D) ∧ e = .multiWriter) ∨
+    (PortUpblkDefect D ∧ ∃ k, 1 ≤ k ∧ k ≤ 4 ∧ e = .signalType k) ∨
+    (NoWriter D ∧ e = .noWriter) ∨
+    (PortNetDefect D ∧ (e = .invalidConnection ∨ ∃ k, 5 ≤ k ∧ k ≤ 9 ∧ e = .signalType k)) :=
+  PV.Nets.verdict_class D hwf e h
+
+/-- a design free of all defects is accepted -/
+theorem legal_accepted (D : Design) (hwf : D.WF) (h : ¬ Defect D) : (elaborate D).verdict = none := by
+  cases hv : (elaborate D).verdict with
+  | none => rfl
+  | some e => exact absurd ((verdict_iff D hwf).mp (by rw [hv]; rfl)) h
+
+/-- the whole outcome (stage, errors, nets, writers) is unchanged by permuting the connect statements -/
+theorem order_invariant_perm (D : Design) (c : List (Nat × Nat × Nat)) (hp : c.Perm D.conns) :
+    elaborate (D.withConns c) = elaborate D := elaborate_perm D c hp
+
+/-- … and by swapping the two sides of any of them -/
+theorem order_invariant_flip (D : Design) (p : Nat → Bool) :
+    elaborate (D.withConns (flipConns p D.conns)) = elaborate D := elaborate_flip D p
+
+/-- operator table: accepted iff `@=` in `update`, or `<<=` on a top-level signal in `update_ff` -/
+theorem op_table (ff : Bool) (op : Op) (isTop : Bool) : opErr ff op isTop = none ↔ LegalOp ff op isTop :=
+  opErr_none_iff ff op isTop
+
+theorem op_errors_iff (D : Design) : opErrs D ≠ [] ↔ OpDefect D := opErrs_iff D
+
+/-- port table in update blocks (Types 1–4) -/
+theorem port_upblk_table (D : Design) (h o : Nat) :
+    (readErr D h o = none ↔ LegalRead D h o) ∧ (writeErr D h o = none ↔ LegalWrite D h o) :=
+  ⟨readErr_none_iff D h o, writeErr_none_iff D h o⟩
+
+theorem port_upblk_iff (D : Design) : portUpblkErrs D ≠ [] ↔ PortUpblkDefect D := portUpblkErrs_iff D
+
+/-- port table over nets (Types 5–9, loop-back) -/
+theorem port_net_table (D : Design) (u v : Nat) : edgeErr D u v = none ↔ LegalFlow D u v :=
+  edgeErr_none_iff D u v
+
+/-- which pairs `_check_port_in_nets` checks in a resolved net `(w, N)`: every pair is a connection
+inside the net, oriented away from the writer (`u` stays connected to `w` when the connection between
+`u` and `v` is removed); no member is the driven side twice; every member but the writer is the
+driven side once -/
+theorem port_walk_spec (D : Design) (hwf : D.WF) (st : RState) (hr : resolve D = .ok st) (w : Nat) (N : List Nat)
+    (h : (w, N) ∈ st.headed) :
+    (∀ p ∈ walk (fun u => sortDedup (adj (simple D.edges) u)) (N.length + 1) [w] [w],
+        Step (simple D.edges) p.1 p.2 ∧ p.2 ∈ N ∧ p.2 ≠ w ∧
+        ∀ e : Edge, (e = (p.1, p.2) ∨ e = (p.2, p.1)) → Reach ((simple D.edges).erase e) w p.1) ∧
+    ((walk (fun u => sortDedup (adj (simple D.edges) u)) (N.length + 1) [w] [w]).map (·.2)).Nodup ∧
+    (∀ y ∈ N, y ≠ w → ∃ u, (u, y) ∈ walk (fun u => sortDedup (adj (simple D.edges) u)) (N.length + 1) [w] [w]) := by
+  obtain ⟨hI, _, _⟩ := (resolve_spec (D.rel_symm hwf.slices)).1 st hr
+  obtain ⟨hN, hwN, _⟩ := hI.hnets _ h
+  have hspec := (nets_spec hN).2.2.2
+  have hadj := adjf_simple D.edges
+  have hnd : ∀ u, (sortDedup (adj (simple D.edges) u)).Nodup := fun u => sorted_nodup (sorted_sortDedup _)
+  have toE : ∀ {a b}, Reach (simple D.edges) a b → Reach D.edges a b :=
+    fun hr => (reach_congr (step_simple D.edges) _ _).mp hr
+  have ofE : ∀ {a b}, Reach D.edges a b → Reach (simple D.edges) a b :=
+    fun hr => (reach_congr (step_simple D.edges) _ _).mpr hr
+  have hrw : Reach D.edges (rep N) w := (hspec w).mp hwN
+  have closedN : ∀ x ∈ N, ∀ y, Step (simple D.edges) x y → y ∈ N := by
+    intro x hx y hs
+    exact (hspec y).mpr (Reach.step ((hspec x).mp hx) ((step_simple D.edges x y).mp hs))
+  refine ⟨?_, (walk_snd_nodup hnd _ _ _).1, ?_⟩
+  · intro p hp
+    obtain ⟨hs, hne, hor⟩ := walk_oriented hadj w _ p hp
+    have hp1 : p.1 ∈ N := by
+      have r := hor (p.1, p.2) (Or.inl rfl)
+      have r' : Reach (simple D.edges) w p.1 := reach_mono (fun _ _ => step_of_mem_erase) r
+      exact (hspec p.1).mpr (reach_trans hrw (toE r'))
+    exact ⟨hs, closedN _ hp1 _ hs, hne, hor⟩
+  · intro y hy hne
+    have r : Reach D.edges w y := reach_trans (reach_symm hrw) ((hspec y).mp hy)
+    exact walk_complete hadj hnd N w hwN closedN y (ofE r) hne
+
+/-- what the driver checks before it answers implies the well-formedness the theorems assume -/
+theorem wf_checked (D : Design) (h : D.wf = true) : D.WF := wf_sound h
+
+/-! ## non-vacuity -/
+
+/-- two blocks write `x[0:6]` and `x[4:8]` -/
+def exOverlap : Design :=
+  { objs := [⟨0, .wire, 0, [], some (0, 6)⟩, ⟨0, .wire, 0, [], some (4, 8)⟩], par := [none], conns := [],
+    blks := [⟨0, false, [(0, .at)], []⟩, ⟨0, false, [(1, .at)], []⟩] }
+example : exOverlap.wf = true := by decide
+example : (elaborate exOverlap).verdict = some .multiWriter := by decide
+/-- one block writing both is accepted (the repaired F6) -/
+def exOverlapSame : Design := { exOverlap with blks := [⟨0, false, [(0, .at), (1, .at)], []⟩] }
+example : (elaborate exOverlapSame).verdict = none := by decide
+/-- a triangle -/
+example : hasLoop [(0, 1), (1, 2), (2, 0)] = true := by decide
+example : ffLoop [(0, 1), (1, 2), (2, 0)] = some true := by decide
+example : hasLoop [(0, 1), (1, 0), (0, 1)] = false := by decide
+example : hasLoop [(3, 3)] = true := by decide
+/-- a net of two wires and nothing that drives them -/
+def exHeadless : Design :=
+  { objs := [⟨0, .wire, 0, [], none⟩, ⟨1, .wire, 0, [], none⟩], par := [none], conns := [(0, 1, 0)], blks := [] }
+example : (elaborate exHeadless).verdict = some .noWriter := by decide
+/-- a child's wire drives a wire of the parent: Type 6 -/
+def exType6 : Design :=
+  { objs := [⟨0, .wire, 1, [], none⟩, ⟨1, .wire, 0, [], none⟩], par := [none, some 0], conns := [(0, 1, 0)],
+    blks := [⟨1, false, [(0, .at)], []⟩] }
+example : (elaborate exType6).verdict = some (.signalType 6) := by decide
+example : opErr true .ff false = some .updateFFNonTop := by decide
+
 end PV.C09
